@@ -15,6 +15,7 @@
 #include "t1.h"
 
 #include <pthread.h>
+#include <stddef.h>
 #include <setjmp.h>
 #include <stdio.h>
 #include <stdlib.h>
@@ -86,7 +87,13 @@ int fiber_context_init(fiber_context_t* c, size_t sz, fiber_run_function_t f, vo
   (void)sz; (void)f; (void)p; memset(c, 0, sizeof *c); return FIBER_SUCCESS;
 }
 int fiber_context_init_from_thread(fiber_context_t* c) { memset(c, 0, sizeof *c); c->is_thread = 1; return FIBER_SUCCESS; }
-void fiber_context_destroy(fiber_context_t* c) { (void)c; }
+/* the stack of a fiber is released here in the real runtime: reported as a monitor-only observation
+ * (tid 960 929 fiber), so that "the stack is reclaimed exactly once" can be judged on the T1 machine */
+void fiber_context_destroy(fiber_context_t* c) {
+  fiber_t* f = (fiber_t*)((char*)c - offsetof(fiber_t, context));
+  int t = t1_tid_of(f);
+  rt_event(960, K_AUX, t >= 0 ? 1000 + t : -1);
+}
 
 /* Only reached from fiber_manager_yield when the current fiber must wait
  * (state WAITING / SAVING / DONE) and nothing else is runnable: the real code
